@@ -39,6 +39,9 @@ pub struct Ident {
     pub chars: [u8; 8],
     pub update: bool,
     pub df18: bool,
+    /// on the update path: the row already shows the same callsign (with another category) instead of a different one
+    #[serde(default)]
+    pub same_callsign_before: bool,
 }
 
 fn ident_frame(i: &Ident) -> Frame {
@@ -50,7 +53,8 @@ fn check_ident(i: &Ident) -> Result<(), String> {
     let mut lines = Vec::new();
     if i.update {
         lines.push(bits::df11(i.addr, 5, 0).hex());
-        lines.push(bits::es(17, 5, i.addr, bits::me_ident(if i.tc == 2 { 3 } else { 2 }, (i.ca + 1) % 8, [17, 17, 17, 48, 49, 50, 32, 32])).hex());
+        let prev_chars = if i.same_callsign_before { i.chars } else { [17, 17, 17, 48, 49, 50, 32, 32] };
+        lines.push(bits::es(17, 5, i.addr, bits::me_ident(if i.tc == 2 { 3 } else { 2 }, (i.ca + 1) % 8, prev_chars)).hex());
     }
     let f = ident_frame(i);
     lines.push(f.hex());
@@ -145,7 +149,7 @@ fn run(c: &mut Ctx) {
                     continue;
                 }
                 chars[p] = code;
-                let i = Ident { opts, addr, tc, ca, hdr_ca, chars, update, df18 };
+                let i = Ident { opts, addr, tc, ca, hdr_ca, chars, update, df18, same_callsign_before: (k % 3) == 0 };
                 c.eval(1);
                 match check_ident(&i) {
                     Ok(()) => {
@@ -174,7 +178,7 @@ fn run(c: &mut Ctx) {
         for tc in 1..=4 {
             for ca in 0..8 {
                 for u in [false, true] {
-                    let i = Ident { opts: Opts::quiet().with_u(u), addr: 0x400000 + tc * 8 + ca, tc, ca, hdr_ca: 5, chars: [1, 2, 3, 49, 50, 51, 32, 32], update: u, df18: false };
+                    let i = Ident { opts: Opts::quiet().with_u(u), addr: 0x400000 + tc * 8 + ca, tc, ca, hdr_ca: 5, chars: [1, 2, 3, 49, 50, 51, 32, 32], update: u, df18: false, same_callsign_before: ca % 2 == 0 };
                     c.eval(1);
                     c.class("tc_ca_grid");
                     c.nontrivial(&i);
@@ -189,7 +193,7 @@ fn run(c: &mut Ctx) {
     }
     // generated strings
     let cases = c.tier.pick(30_000, 400_000);
-    let strat = (gen::opts_ur(), gen::addr(), 1u32..=4, 0u32..8, 0u32..8, proptest::array::uniform8(0u8..64), any::<bool>()).prop_map(|(opts, addr, tc, ca, hdr_ca, chars, update)| Ident { opts, addr, tc, ca, hdr_ca, chars, update, df18: false });
+    let strat = (gen::opts_ur(), gen::addr(), 1u32..=4, 0u32..8, 0u32..8, proptest::array::uniform8(0u8..64), any::<bool>(), any::<bool>()).prop_map(|(opts, addr, tc, ca, hdr_ca, chars, update, same)| Ident { opts, addr, tc, ca, hdr_ca, chars, update, df18: false, same_callsign_before: same });
     let r = c.proptest(cases, strat, |c, i, counting| {
         check_ident(i)?;
         if counting {
